@@ -1,8 +1,942 @@
-//! placeholder: this component is not built yet
+//! C10, C11, C12 — correspondence of `trion::text::token::Tokenizer` with the Lean model `Trion.Lex`
+//! and the property oracles evaluated on the implementation.
+//!
+//! canonical text of one input (identical to `Trion.Driver.Lex.showOut`):
+//!   `id 1 1 6d6f76 | num 1 5 10 | str 1 8 6162 | E 1 12 badstring | end 1 13`
+//! replay inputs:
+//!   `tok <hex>`                       C10: shape oracle + model comparison on one input
+//!   `lit <hex> <expectation>`         C11: `num:<n>` | `str:<hex>` | `reject`
+//!   `pos <hex> <o1,o2,..>`            C12: tokens were placed at these byte offsets
+use trion::text::parse::Parser;
+use trion::text::token::{Number, Token, TokenErrorKind, TokenValue, Tokenizer};
+
 use crate::common::*;
+
+// ---------------------------------------------------------------------------------------------
+// running the real code
+
+#[derive(Clone, Debug, PartialEq, Eq)]
+pub struct Item
+{
+	pub kind: &'static str,
+	pub line: u32,
+	pub col: u32,
+	/// decimal for numbers, hex for identifier / string bytes, empty otherwise
+	pub payload: String,
+}
+
+#[derive(Clone, Debug)]
+pub struct Lexed
+{
+	pub canon: String,
+	pub toks: Vec<Item>,
+	/// (line, col, kind)
+	pub err: Option<(u32, u32, String)>,
+	pub end: (u32, u32),
+	pub panic: Option<String>,
+	/// violation of "at most the last item is an error, nothing after an error or the end"
+	pub shape: Option<String>,
+}
+
+fn tok_name(v: &TokenValue) -> &'static str
+{
+	match v
+	{
+		TokenValue::Separator => "sep", TokenValue::Terminator => "term",
+		TokenValue::LabelMark => "labelmark", TokenValue::DirectiveMark => "dirmark",
+		TokenValue::Plus => "plus", TokenValue::Minus => "minus", TokenValue::Multiply => "mul",
+		TokenValue::Divide => "div", TokenValue::Modulo => "mod", TokenValue::Not => "not",
+		TokenValue::BitAnd => "band", TokenValue::BitOr => "bor", TokenValue::BitXor => "bxor",
+		TokenValue::LeftShift => "shl", TokenValue::RightShift => "shr",
+		TokenValue::Number(..) => "num", TokenValue::Identifier(..) => "id", TokenValue::String(..) => "str",
+		TokenValue::BeginGroup => "lparen", TokenValue::EndGroup => "rparen",
+		TokenValue::BeginAddr => "lbrack", TokenValue::EndAddr => "rbrack",
+		TokenValue::BeginSeq => "lbrace", TokenValue::EndSeq => "rbrace",
+	}
+}
+
+fn item_of(t: &Token) -> Item
+{
+	let payload = match &t.value
+	{
+		TokenValue::Number(Number::Integer(v)) => v.to_string(),
+		TokenValue::Identifier(s) => hex(s.as_bytes()),
+		TokenValue::String(s) => {let s: &str = s.as_ref(); hex(s.as_bytes())},
+		_ => String::new(),
+	};
+	Item{kind: tok_name(&t.value), line: t.line, col: t.col, payload}
+}
+
+fn kind_name(k: &TokenErrorKind) -> String
+{
+	match k
+	{
+		TokenErrorKind::BadUnicode => "badunicode".to_owned(),
+		TokenErrorKind::Invalid => "invalid".to_owned(),
+		TokenErrorKind::BlockComment => "blockcomment".to_owned(),
+		TokenErrorKind::BadNumber => "badnumber".to_owned(),
+		TokenErrorKind::BadCharacter => "badcharacter".to_owned(),
+		TokenErrorKind::BadString => "badstring".to_owned(),
+		TokenErrorKind::Unexpected(c) => format!("unexpected:{}", *c as u32),
+	}
+}
+
+const EXTRA_NEXT: usize = 3;
+
+/// iterate the real tokenizer to exhaustion (and a few calls beyond), under `guarded`
+pub fn real_lex(bytes: &[u8]) -> Lexed
+{
+	let r = guarded(||
+	{
+		let mut tk = Tokenizer::new(bytes);
+		let mut toks = Vec::new();
+		let mut err = None;
+		let mut shape = None;
+		let cap = bytes.len() + 2;
+		let mut n = 0usize;
+		loop
+		{
+			n += 1;
+			if n > cap {shape = Some(format!("more than {cap} items from {} bytes", bytes.len())); break;}
+			match tk.next()
+			{
+				None => break,
+				Some(Ok(t)) => toks.push(item_of(&t)),
+				Some(Err(e)) => {err = Some((e.line, e.col, kind_name(&e.value))); break;},
+			}
+		}
+		let end = (tk.get_line(), tk.get_column());
+		for i in 0..EXTRA_NEXT
+		{
+			if let Some(x) = tk.next()
+			{
+				if shape.is_none()
+				{
+					shape = Some(format!("call {} after {} yields another item: {}", i + 1, if err.is_some() {"an error"} else {"the end"},
+						match x {Ok(t) => format!("token {}", tok_name(&t.value)), Err(e) => format!("error {}", kind_name(&e.value))}));
+				}
+			}
+		}
+		if shape.is_none() && (tk.get_line(), tk.get_column()) != end {shape = Some("position moves after the end".to_owned());}
+		(toks, err, end, shape)
+	});
+	match r
+	{
+		Err(msg) => Lexed{canon: "PANIC".to_owned(), toks: Vec::new(), err: None, end: (0, 0), panic: Some(msg), shape: None},
+		Ok((toks, err, end, shape)) =>
+		{
+			let mut parts: Vec<String> = toks.iter().map(|t| if t.payload.is_empty() && !matches!(t.kind, "id" | "str" | "num")
+				{format!("{} {} {}", t.kind, t.line, t.col)} else {format!("{} {} {} {}", t.kind, t.line, t.col, t.payload)}).collect();
+			if let Some((l, c, k)) = &err {parts.push(format!("E {l} {c} {k}"));}
+			parts.push(format!("end {} {}", end.0, end.1));
+			Lexed{canon: parts.join(" | "), toks, err, end, panic: None, shape}
+		},
+	}
+}
+
+pub struct Parsed
+{
+	pub elements: usize,
+	pub err: bool,
+	pub panic: Option<String>,
+	pub shape: Option<String>,
+}
+
+/// iterate the real parser to exhaustion (and a few calls beyond), under `guarded`
+pub fn real_parse(bytes: &[u8]) -> Parsed
+{
+	let r = guarded(||
+	{
+		let mut p = Parser::new(bytes);
+		let mut elements = 0usize;
+		let mut err = false;
+		let mut shape = None;
+		let cap = bytes.len() + 2;
+		let mut n = 0usize;
+		loop
+		{
+			n += 1;
+			if n > cap {shape = Some(format!("parser: more than {cap} items from {} bytes", bytes.len())); break;}
+			match p.next()
+			{
+				None => break,
+				Some(Ok(_)) => elements += 1,
+				Some(Err(_)) => {err = true; break;},
+			}
+		}
+		for i in 0..EXTRA_NEXT
+		{
+			if p.next().is_some() && shape.is_none()
+			{
+				shape = Some(format!("parser: call {} after {} yields another item", i + 1, if err {"an error"} else {"the end"}));
+			}
+		}
+		(elements, err, shape)
+	});
+	match r
+	{
+		Err(msg) => Parsed{elements: 0, err: false, panic: Some(msg), shape: None},
+		Ok((elements, err, shape)) => Parsed{elements, err, panic: None, shape},
+	}
+}
+
+/// the C10 oracle on one input; returns the tokenizer result for the comparison with the model
+fn c10_oracle(cx: &mut Cx, bytes: &[u8]) -> Lexed
+{
+	let lx = real_lex(bytes);
+	let input = || format!("tok {}", hex(bytes));
+	if let Some(m) = &lx.panic {cx.report.oracle_fail(input(), format!("tokenizer panics: {m}"));}
+	if let Some(m) = &lx.shape {cx.report.oracle_fail(input(), format!("tokenizer: {m}"));}
+	let ps = real_parse(bytes);
+	if let Some(m) = &ps.panic {cx.report.oracle_fail(input(), format!("parser panics: {m}"));}
+	if let Some(m) = &ps.shape {cx.report.oracle_fail(input(), m.clone());}
+	if lx.panic.is_none() && ps.panic.is_none() && lx.err.is_some() && !ps.err
+	{
+		cx.report.oracle_fail(input(), format!("tokenizer rejects the text ({}) but the parser reports success ({} elements, no error)", lx.canon, ps.elements));
+	}
+	lx
+}
+
+// ---------------------------------------------------------------------------------------------
+// C10
+
+/// `/ * " ' \ u { } 0 x a ; : . , ( LF TAB 0x7F 0xC3 0xA9 0xFF`
+const ALPHABET: [u8; 22] = [b'/', b'*', b'"', b'\'', b'\\', b'u', b'{', b'}', b'0', b'x', b'a', b';', b':', b'.', b',', b'(', b'\n', b'\t', 0x7F, 0xC3, 0xA9, 0xFF];
+
+fn alphabet_arg() -> String
+{
+	ALPHABET.iter().map(|b| format!("{b:02x}")).collect::<Vec<_>>().join(",")
+}
+
+fn prefix_arg(p: &[usize]) -> String
+{
+	if p.is_empty() {"-".to_owned()} else {p.iter().map(|i| i.to_string()).collect::<Vec<_>>().join(",")}
+}
+
+/// digest (and oracle) over all strings `cur ++ w`, `w` of `k` symbols — same order as `Driver.Lex.enum`
+fn enum_real(cx: &mut Cx, k: usize, cur: &mut Vec<u8>, h: &mut u64, oracle: bool)
+{
+	if k == 0
+	{
+		let lx = if oracle {c10_oracle(cx, cur)} else {real_lex(cur)};
+		if oracle
+		{
+			cx.report.evaluations += 1;
+			if !lx.toks.is_empty() {cx.report.distinct_key(fnv(FNV_INIT, lx.canon.as_bytes()));}
+			let bucket = match (&lx.panic, &lx.err) {(Some(_), _) => "enum: panic".to_owned(), (_, Some((_, _, k))) => format!("enum: ends in {}", k.split(':').next().unwrap()), _ => "enum: ends normally".to_owned()};
+			cx.report.hit(&bucket);
+		}
+		*h = fnv(*h, lx.canon.as_bytes());
+		*h = fnv(*h, b"\n");
+		return;
+	}
+	for &b in ALPHABET.iter()
+	{
+		cur.push(b);
+		enum_real(cx, k - 1, cur, h, oracle);
+		cur.pop();
+	}
+}
+
+/// compare the digests of all strings of `len` symbols that extend `prefix`; descend on mismatch
+fn compare_block(cx: &mut Cx, len: usize, prefix: &mut Vec<usize>, oracle: bool)
+{
+	let mut cur: Vec<u8> = prefix.iter().map(|&i| ALPHABET[i]).collect();
+	if prefix.len() == len
+	{
+		let mut h = FNV_INIT;
+		enum_real(cx, 0, &mut cur, &mut h, oracle);
+		let reply = cx.model.ask(&format!("lex bulk {len} {} {}", alphabet_arg(), prefix_arg(prefix)));
+		if reply != format!("{h:016x}")
+		{
+			let m = cx.model.ask(&format!("lex tok {}", hex(&cur)));
+			let lx = real_lex(&cur);
+			cx.report.disagree("model.lex.tokens", format!("tok {}", hex(&cur)), m, lx.canon);
+		}
+		return;
+	}
+	let reply = cx.model.ask(&format!("lex bulk {len} {} {}", alphabet_arg(), prefix_arg(prefix)));
+	let digests: Vec<&str> = reply.split(' ').collect();
+	if digests.len() != ALPHABET.len()
+	{
+		cx.report.disagree("model.lex.tokens", format!("bulk {len} {}", prefix_arg(prefix)), reply.clone(), "22 digests expected");
+		return;
+	}
+	for j in 0..ALPHABET.len()
+	{
+		let mut h = FNV_INIT;
+		cur.push(ALPHABET[j]);
+		enum_real(cx, len - prefix.len() - 1, &mut cur, &mut h, oracle);
+		cur.pop();
+		if digests[j] != format!("{h:016x}")
+		{
+			if cx.report.disagreements_total >= 5 {continue;}
+			prefix.push(j);
+			if prefix.len() == len
+			{
+				let s: Vec<u8> = prefix.iter().map(|&i| ALPHABET[i]).collect();
+				let m = cx.model.ask(&format!("lex tok {}", hex(&s)));
+				let lx = real_lex(&s);
+				cx.report.disagree("model.lex.tokens", format!("tok {}", hex(&s)), m, lx.canon);
+			}
+			else {compare_block(cx, len, prefix, false);}
+			prefix.pop();
+		}
+	}
+}
+
+const SEEDS: [&str; 14] = [
+	"start: MOVS R0, 0x1F; // comment\n\tLDR R1, [SP, 4 * (2 + 1)];\n",
+	".du8 \"text\\n\\u{41}\", 'a', '\\n', 0b101, 0o17, -9223372036854775807;\n",
+	"/* outer /* inner */ still */ loop: B loop;\n",
+	".dstr \"h\u{e9}llo \u{1F600} w\u{F6}rld\"; /* \u{e9} */ ADDS R0, R1, R2;\n",
+	"PUSH {R0, R1, LR};\r\n\tPOP {R0, R1, PC};\r\n",
+	".const x, (1 << 4) | 3 & ~0 ^ 7 % 2 / 1;\n",
+	"a.b$c@d_e: .global a.b$c@d_e;",
+	"'\u{e9}' '\\'' '\"' ''' '\\\\' \"\\\\\" \"\\\"\" \"\\0\"",
+	"LDR R0, [R1, R2]; STR R0, [R1, 124]; ADD SP, SP, 8;",
+	".addr 0x20000000; .align 4; .du32 0xFFFFFFFF, 4294967295, 0o37777777777;",
+	"x >> 2 << 3 >> 1",
+	"// only a comment",
+	"/* unterminated",
+	"\"unterminated",
+];
+
+const FRAGMENTS: [&[u8]; 40] = [
+	b"/*", b"*/", b"//", b"/", b"*", b"\"", b"'", b"\\", b"\\u{", b"}", b"{", b"\\u{41}", b"\\u{D800}", b"\\u{110000}", b"\\n", b"\\q",
+	b"0x", b"0b", b"0o", b"0", b"9223372036854775807", b"9223372036854775808", b"\n", b"\r\n", b"\t", b" ", b"\x7f", b"\x00", b"\x1b",
+	b"\xc3\xa9", b"\xc3", b"\xa9", b"\xff", b"\xf0\x9f\x98\x80", b"\xed\xa0\x80", b"\xe2\x82", b"<<", b">", b"abc", b";",
+];
+
+fn random_input(rng: &mut Rng) -> Vec<u8>
+{
+	let mode = rng.below(10);
+	if mode < 6
+	{
+		// mutate a seed
+		let mut v: Vec<u8> = rng.pick(&SEEDS[..]).as_bytes().to_vec();
+		if rng.chance(1, 3) {v.extend_from_slice(rng.pick(&SEEDS[..]).as_bytes());}
+		let muts = 1 + rng.below(6);
+		for _ in 0..muts
+		{
+			let at = rng.below(v.len() as u64 + 1) as usize;
+			match rng.below(6)
+			{
+				0 => {let f: &[u8] = *rng.pick(&FRAGMENTS[..]); v.splice(at..at, f.iter().copied());},
+				1 => if at < v.len() {v[at] = rng.next() as u8;},
+				2 => if at < v.len() {v.remove(at);},
+				3 => v.truncate(at),
+				4 => if at < v.len() {v[at] ^= 1 << rng.below(8);},
+				_ => {let f = ALPHABET[rng.below(22) as usize]; v.insert(at, f);},
+			}
+		}
+		v
+	}
+	else if mode < 9
+	{
+		// concatenation of fragments
+		let n = 1 + rng.below(40);
+		let mut v: Vec<u8> = Vec::new();
+		for _ in 0..n {let f: &[u8] = *rng.pick(&FRAGMENTS[..]); v.extend_from_slice(f);}
+		v
+	}
+	else
+	{
+		let n = rng.below(200) as usize;
+		(0..n).map(|_| if rng.chance(1, 4) {rng.next() as u8} else {ALPHABET[rng.below(22) as usize]}).collect()
+	}
+}
+
+fn c10_single(cx: &mut Cx, bytes: &[u8], reply: &str)
+{
+	let lx = c10_oracle(cx, bytes);
+	cx.report.case(if lx.toks.is_empty() {None} else {Some(&lx.canon)});
+	cx.report.compare("model.lex.tokens", &format!("tok {}", hex(bytes)), reply, &lx.canon);
+}
+
+fn run_c10(cx: &mut Cx)
+{
+	cx.report.rule = "exhaustive: every string of up to 4 (quick) / 5 (thorough) symbols over the 22-symbol alphabet \
+/ * \" ' \\ u { } 0 x a ; : . , ( LF TAB 7F C3 A9 FF, model digests compared per block and bisected; plus random inputs \
+(mutated assembly snippets, fragment concatenations, random bytes; up to ~300 bytes). On every input: real Tokenizer and real Parser \
+under catch_unwind; oracle: no panic, at most the last item an error, three further next() calls yield nothing, \
+tokenizer error implies parser error. non-trivial = at least one token produced; distinct = distinct canonical token streams".to_owned();
+	if let Some(input) = cx.replay.clone()
+	{
+		match input.split(' ').collect::<Vec<_>>().as_slice()
+		{
+			["tok", h] if unhex(h).is_some() =>
+			{
+				let bytes = unhex(h).unwrap();
+				let reply = cx.model.ask(&format!("lex tok {}", hex(&bytes)));
+				c10_single(cx, &bytes, &reply);
+			},
+			_ => cx.report.oracle_fail(input.clone(), "unrecognised replay input"),
+		}
+		return;
+	}
+	let max_len = if cx.thorough() {5} else {4};
+	for len in 0..=max_len
+	{
+		let before = cx.report.evaluations;
+		compare_block(cx, len, &mut Vec::new(), true);
+		cx.report.hit_n(&format!("exhaustive length {len}"), cx.report.evaluations - before);
+	}
+	cx.report.exhaustive = true;
+	cx.report.notes.push(format!("exhaustive over all strings of length <= {max_len} over the 22-symbol alphabet; the random part is not exhaustive"));
+
+	let nrand = if cx.thorough() {400_000} else {100_000};
+	let mut rng = cx.rng.fork();
+	let mut done = 0;
+	while done < nrand
+	{
+		let n = 8192.min(nrand - done);
+		let inputs: Vec<Vec<u8>> = (0..n).map(|_| random_input(&mut rng)).collect();
+		let lines: Vec<String> = inputs.iter().map(|b| format!("lex tok {}", hex(b))).collect();
+		let replies = cx.model.ask_many(&lines);
+		for (b, r) in inputs.iter().zip(replies.iter()) {c10_single(cx, b, r);}
+		done += n;
+	}
+	cx.report.hit_n("random / mutated inputs", nrand as u64);
+	for s in ["/* x */ \u{e9}", "\"a\nb\"", "mov r0, 10 \"ab\" \"x"]
+	{
+		let lx = real_lex(s.as_bytes());
+		cx.report.sample(format!("{s:?} -> {}", lx.canon));
+	}
+}
+
+// ---------------------------------------------------------------------------------------------
+// C11
+
+#[derive(Clone, Debug, PartialEq, Eq)]
+enum Expect
+{
+	Num(u64),
+	Str(Vec<u8>),
+	Reject,
+}
+
+impl Expect
+{
+	fn show(&self) -> String
+	{
+		match self {Expect::Num(n) => format!("num:{n}"), Expect::Str(s) => format!("str:{}", hex(s)), Expect::Reject => "reject".to_owned()}
+	}
+	fn parse(s: &str) -> Option<Expect>
+	{
+		if s == "reject" {return Some(Expect::Reject);}
+		if let Some(n) = s.strip_prefix("num:") {return n.parse().ok().map(Expect::Num);}
+		if let Some(h) = s.strip_prefix("str:") {return unhex(h).map(Expect::Str);}
+		None
+	}
+}
+
+/// the C11 oracle: the text is one literal written so as to denote `want`
+fn c11_check(cx: &mut Cx, class: &str, bytes: &[u8], want: &Expect, reply: &str)
+{
+	let input = format!("lit {} {}", hex(bytes), want.show());
+	let lx = real_lex(bytes);
+	cx.report.case(match want {Expect::Reject => None, _ => Some(&lx.canon)});
+	cx.report.hit(class);
+	cx.report.compare("model.lex.tokens", &input, reply, &lx.canon);
+	if let Some(m) = &lx.panic {cx.report.oracle_fail(input, format!("tokenizer panics: {m}")); return;}
+	let ok = match want
+	{
+		Expect::Num(n) => lx.err.is_none() && lx.toks.len() == 1 && lx.toks[0].kind == "num" && lx.toks[0].payload == n.to_string(),
+		Expect::Str(s) => lx.err.is_none() && lx.toks.len() == 1 && lx.toks[0].kind == "str" && lx.toks[0].payload == hex(s),
+		Expect::Reject => lx.err.is_some() && lx.toks.is_empty(),
+	};
+	if !ok
+	{
+		cx.report.oracle_fail(input, format!("literal must yield {}, tokenizer yields: {}", match want
+		{
+			Expect::Num(n) => format!("the single number {n}"), Expect::Str(s) => format!("the single string {}", hex(s)), Expect::Reject => "an error and no token".to_owned(),
+		}, lx.canon));
+	}
+}
+
+fn to_radix(mut n: u128, radix: u32, upper: u8, rng: &mut Rng) -> String
+{
+	if n == 0 {return "0".to_owned();}
+	let mut ds = Vec::new();
+	while n > 0
+	{
+		let d = (n % radix as u128) as u32;
+		let c = char::from_digit(d, radix).unwrap();
+		let up = match upper {0 => false, 1 => true, _ => rng.chance(1, 2)};
+		ds.push(if up {c.to_ascii_uppercase()} else {c});
+		n /= radix as u128;
+	}
+	ds.iter().rev().collect()
+}
+
+fn int_literal(n: u128, radix: u32, case: u8, zeros: usize, rng: &mut Rng) -> Vec<u8>
+{
+	let prefix = match radix {2 => "0b", 8 => "0o", 16 => "0x", _ => ""};
+	format!("{prefix}{}{}", "0".repeat(zeros), to_radix(n, radix, case, rng)).into_bytes()
+}
+
+struct Batch
+{
+	class: &'static str,
+	cases: Vec<(Vec<u8>, Expect)>,
+}
+
+fn flush(cx: &mut Cx, b: &mut Batch)
+{
+	if b.cases.is_empty() {return;}
+	let lines: Vec<String> = b.cases.iter().map(|(t, _)| format!("lex tok {}", hex(t))).collect();
+	let replies = cx.model.ask_many(&lines);
+	let cases = std::mem::take(&mut b.cases);
+	for ((t, w), r) in cases.iter().zip(replies.iter()) {c11_check(cx, b.class, t, w, r);}
+}
+
+fn push(cx: &mut Cx, b: &mut Batch, text: Vec<u8>, want: Expect)
+{
+	b.cases.push((text, want));
+	if b.cases.len() >= 32768 {flush(cx, b);}
+}
+
+fn utf8(c: char) -> Vec<u8>
+{
+	let mut buf = [0u8; 4];
+	c.encode_utf8(&mut buf).as_bytes().to_vec()
+}
+
+/// one element of a generated string literal: (source text, bytes it denotes)
+fn string_piece(rng: &mut Rng) -> (Vec<u8>, Vec<u8>)
+{
+	match rng.below(10)
+	{
+		0..=3 =>
+		{
+			// printable ASCII other than `"` and `\`, or TAB
+			loop
+			{
+				let c = if rng.chance(1, 12) {b'\t'} else {rng.range(32, 126) as u8};
+				if c != b'"' && c != b'\\' {return (vec![c], vec![c]);}
+			}
+		},
+		4 | 5 =>
+		{
+			let c = random_scalar(rng, 0x80);
+			(utf8(c), utf8(c))
+		},
+		6 | 7 =>
+		{
+			let (src, c): (&[u8], u8) = *rng.pick(&[(&b"\\0"[..], 0u8), (b"\\t", 9), (b"\\n", 10), (b"\\r", 13), (b"\\\"", b'"'), (b"\\'", b'\''), (b"\\\\", b'\\')]);
+			(src.to_vec(), vec![c])
+		},
+		_ =>
+		{
+			let c = random_scalar(rng, 0);
+			let digits = format!("{:x}", c as u32);
+			let zeros = rng.below((6 - digits.len()) as u64 + 1) as usize;
+			let mut h = "0".repeat(zeros) + &digits;
+			if rng.chance(1, 2) {h = h.chars().map(|ch| if rng.chance(1, 2) {ch.to_ascii_uppercase()} else {ch}).collect();}
+			(format!("\\u{{{h}}}").into_bytes(), utf8(c))
+		},
+	}
+}
+
+fn random_scalar(rng: &mut Rng, min: u32) -> char
+{
+	loop
+	{
+		let v = match rng.below(4)
+		{
+			0 => rng.range(min as i64, 0x7FF) as u32,
+			1 => rng.range(0x800.max(min) as i64, 0xFFFF) as u32,
+			2 => rng.range(0x10000, 0x10FFFF) as u32,
+			_ => *rng.pick(&[0x80u32, 0x7FF, 0x800, 0xD7FF, 0xE000, 0xFFFF, 0x10000, 0x10FFFF, 0xE9, 0x1F600]),
+		};
+		if v >= min {if let Some(c) = char::from_u32(v) {return c;}}
+	}
+}
+
+fn run_c11(cx: &mut Cx)
+{
+	cx.report.rule = "integers: every n within 2^12 of 0, 2^31, 2^32, 2^63 (below and above) in radix 2, 8, 10, 16, lower / upper / mixed digit case, \
+0-3 leading zeros; every Unicode scalar value as a raw character literal, raw inside a string and as \\u{hex} inside a string; every escape; \
+random strings over printable, TAB, multi-byte, escaped and \\u{..} pieces; malformed literals. Oracle from the way each literal was generated. \
+non-trivial = accepted literal; distinct = distinct canonical token streams".to_owned();
+	if let Some(input) = cx.replay.clone()
+	{
+		match input.split(' ').collect::<Vec<_>>().as_slice()
+		{
+			["lit", h, w] if unhex(h).is_some() && Expect::parse(w).is_some() =>
+			{
+				let bytes = unhex(h).unwrap();
+				let reply = cx.model.ask(&format!("lex tok {}", hex(&bytes)));
+				c11_check(cx, "replay", &bytes, &Expect::parse(w).unwrap(), &reply);
+			},
+			_ => cx.report.oracle_fail(input.clone(), "unrecognised replay input"),
+		}
+		return;
+	}
+	let mut rng = cx.rng.fork();
+
+	// integers around the boundaries
+	let mut b = Batch{class: "integer literal", cases: Vec::new()};
+	let centres: [u128; 4] = [0, 1 << 31, 1 << 32, 1 << 63];
+	for &centre in centres.iter()
+	{
+		let lo = centre.saturating_sub(4096);
+		for n in lo..=centre + 4096
+		{
+			for radix in [2u32, 8, 10, 16]
+			{
+				for case in 0..3u8
+				{
+					if case > 0 && radix != 16 {continue;}
+					let zeros = match case {0 => 0, 1 => 1, _ => rng.below(4) as usize};
+					let text = int_literal(n, radix, case, zeros, &mut rng);
+					let want = if n < (1u128 << 63) {Expect::Num(n as u64)} else {Expect::Reject};
+					push(cx, &mut b, text, want);
+				}
+				if radix != 16
+				{
+					let text = int_literal(n, radix, 0, 1 + rng.below(3) as usize, &mut rng);
+					let want = if n < (1u128 << 63) {Expect::Num(n as u64)} else {Expect::Reject};
+					push(cx, &mut b, text, want);
+				}
+			}
+		}
+	}
+	// much too large
+	for radix in [2u32, 8, 10, 16]
+	{
+		for k in [64u32, 65, 100, 127]
+		{
+			let n = (1u128 << k) - if k == 127 {1} else {0};
+			push(cx, &mut b, int_literal(n, radix, 0, 0, &mut rng), Expect::Reject);
+		}
+		push(cx, &mut b, int_literal(u64::MAX as u128, radix, 0, 0, &mut rng), Expect::Reject);
+		push(cx, &mut b, int_literal(i64::MAX as u128, radix, 1, 2, &mut rng), Expect::Num(i64::MAX as u64));
+	}
+	flush(cx, &mut b);
+
+	// every scalar value
+	let mut bc = Batch{class: "character literal (every scalar)", cases: Vec::new()};
+	let mut bs = Batch{class: "string with one raw character (every scalar)", cases: Vec::new()};
+	let mut bu = Batch{class: "string with one \\u{hex} (every scalar)", cases: Vec::new()};
+	for v in 0..=0x10FFFFu32
+	{
+		let Some(c) = char::from_u32(v) else {continue;};
+		let raw = utf8(c);
+		let printable = v == 9 || (v >= 32 && v != 127);
+		let mut t = vec![b'\''];
+		t.extend_from_slice(&raw);
+		t.push(b'\'');
+		push(cx, &mut bc, t, if printable && c != '\\' {Expect::Num(v as u64)} else {Expect::Reject});
+		if c != '"' && c != '\\'
+		{
+			let mut t = vec![b'"'];
+			t.extend_from_slice(&raw);
+			t.push(b'"');
+			push(cx, &mut bs, t, if printable {Expect::Str(raw.clone())} else {Expect::Reject});
+		}
+		let h = if v % 3 == 0 {format!("{v:X}")} else if v % 3 == 1 {format!("{v:x}")} else {format!("{v:06x}")};
+		push(cx, &mut bu, format!("\"\\u{{{h}}}\"").into_bytes(), Expect::Str(raw));
+	}
+	flush(cx, &mut bc);
+	flush(cx, &mut bs);
+	flush(cx, &mut bu);
+
+	// escapes
+	let mut be = Batch{class: "escape", cases: Vec::new()};
+	for (e, v) in [(b't', 9u8), (b'n', 10), (b'r', 13), (b'"', b'"'), (b'\'', b'\''), (b'\\', b'\\')]
+	{
+		push(cx, &mut be, vec![b'\'', b'\\', e, b'\''], Expect::Num(v as u64));
+		push(cx, &mut be, vec![b'"', b'\\', e, b'"'], Expect::Str(vec![v]));
+		push(cx, &mut be, vec![b'"', b'a', b'\\', e, b'b', b'"'], Expect::Str(vec![b'a', v, b'b']));
+	}
+	push(cx, &mut be, b"\"\\0\"".to_vec(), Expect::Str(vec![0]));
+	push(cx, &mut be, b"\"\"".to_vec(), Expect::Str(vec![]));
+	push(cx, &mut be, b"'''".to_vec(), Expect::Num(39));
+	push(cx, &mut be, b"'\"'".to_vec(), Expect::Num(34));
+	// every other escape letter is unknown
+	for e in 0u8..=127
+	{
+		if !matches!(e, b't' | b'n' | b'r' | b'"' | b'\'' | b'\\')
+		{
+			push(cx, &mut be, vec![b'\'', b'\\', e, b'\''], Expect::Reject);
+		}
+		if !matches!(e, b'0' | b't' | b'n' | b'r' | b'"' | b'\'' | b'\\' | b'u')
+		{
+			push(cx, &mut be, vec![b'"', b'\\', e, b'"'], Expect::Reject);
+			push(cx, &mut be, vec![b'"', b'\\', e, b'x', b'"'], Expect::Reject);
+		}
+	}
+	flush(cx, &mut be);
+
+	// random strings
+	let mut br = Batch{class: "random string", cases: Vec::new()};
+	let nstr = if cx.thorough() {400_000} else {60_000};
+	for _ in 0..nstr
+	{
+		let n = rng.below(14);
+		let (mut src, mut val) = (vec![b'"'], Vec::new());
+		for _ in 0..n
+		{
+			let (s, v) = string_piece(&mut rng);
+			src.extend_from_slice(&s);
+			val.extend_from_slice(&v);
+		}
+		src.push(b'"');
+		push(cx, &mut br, src, Expect::Str(val));
+	}
+	flush(cx, &mut br);
+
+	// malformed literals
+	let mut bm = Batch{class: "malformed literal", cases: Vec::new()};
+	let fixed: &[&[u8]] = &[
+		b"\"abc", b"\"", b"\"abc\\", b"\"abc\\\"", b"\"\\", b"\"\\u", b"\"\\u{", b"\"\\u{41", b"\"\\u{41}", b"\"\\u41\"", b"\"\\u\"", b"\"\\ux\"",
+		b"'a", b"'", b"'\\", b"'\\n", b"'ab'", b"''", b"'\\u{41}'", b"'\\0'", b"'\\x'", b"'\n'", b"'\r'", b"'\x7f'", b"'\x00'", b"'\\", b"'a\"",
+		b"\"a\nb\"", b"\"a\rb\"", b"\"a\x7fb\"", b"\"a\x00b\"", b"\"a\x1bb\"", b"\"\x0b\"", b"\"\x1f\"",
+		b"\"\\q\"", b"\"\\x41\"", b"\"\\N\"", b"\"\\U{41}\"", b"\"\\ \"",
+		b"\"\\u{D800}\"", b"\"\\u{DFFF}\"", b"\"\\u{dabc}\"", b"\"\\u{110000}\"", b"\"\\u{FFFFFF}\"", b"\"\\u{1000000}\"", b"\"\\u{0000041}\"",
+		b"\"\\u{}\"", b"\"\\u{g}\"", b"\"\\u{4G}\"", b"\"\\u{+41}\"", b"\"\\u{-41}\"", b"\"\\u{+}\"", b"\"\\u{ 41}\"", b"\"\\u{41 }\"", b"\"\\u{\xc3\xa9}\"",
+		b"0x", b"0b",
+	];
+	for t in fixed.iter() {push(cx, &mut bm, t.to_vec(), Expect::Reject);}
+	for t in [&b"0o"[..], b"0x;", b"0b2", b"0o8", b"0xg", b"0b ", b"0x\n", b"0o\"\"", b"99999999999999999999", b"0xFFFFFFFFFFFFFFFFF", b"0o1000000000000000000000", b"9223372036854775808", b"0x8000000000000000"]
+	{
+		push(cx, &mut bm, t.to_vec(), Expect::Reject);
+	}
+	// surrogates and out-of-range values, every one of them for the surrogates
+	for v in 0xD800u32..=0xDFFF {push(cx, &mut bm, format!("\"\\u{{{v:x}}}\"").into_bytes(), Expect::Reject);}
+	for v in (0x110000u32..=0xFFFFFF).step_by(4099) {push(cx, &mut bm, format!("\"\\u{{{v:x}}}\"").into_bytes(), Expect::Reject);}
+	// signed \u for a sample of scalars
+	for _ in 0..2000
+	{
+		let c = random_scalar(&mut rng, 0) as u32;
+		if c <= 0xFFFFF {push(cx, &mut bm, format!("\"\\u{{+{c:x}}}\"").into_bytes(), Expect::Reject);}
+		push(cx, &mut bm, format!("\"\\u{{-{:x}}}\"", c & 0xFFFFF).into_bytes(), Expect::Reject);
+	}
+	// raw control characters inside longer strings, missing closing quotes after random content
+	for _ in 0..20_000
+	{
+		let n = 1 + rng.below(8);
+		let mut src = vec![b'"'];
+		for _ in 0..n {src.extend_from_slice(&string_piece(&mut rng).0);}
+		match rng.below(3)
+		{
+			0 => {},                                               // missing quote
+			1 => {let c = loop {let c = rng.below(32) as u8; if c != 9 {break c;}}; src.push(c); src.push(b'"');},
+			_ => {src.push(0x7F); src.push(b'"');},
+		}
+		push(cx, &mut bm, src, Expect::Reject);
+	}
+	flush(cx, &mut bm);
+
+	for s in [&b"0x7FFFFFFFFFFFFFFF"[..], b"'\xc3\xa9'", b"\"a\\u{1F600}\\n\"", b"\"\\u{+41}\"", b"0x"]
+	{
+		let lx = real_lex(s);
+		cx.report.sample(format!("{} -> {}", String::from_utf8_lossy(s), lx.canon));
+	}
+}
+
+// ---------------------------------------------------------------------------------------------
+// C12
+
+/// (1 + number of LF before `offset`, 1 + number of Unicode scalar values since the last LF); the text
+/// up to `offset` is valid UTF-8 by construction and is decoded with `str::chars`
+fn position_of(text: &[u8], offset: usize) -> Option<(u32, u32)>
+{
+	let pre = &text[..offset];
+	let line = 1 + pre.iter().filter(|&&b| b == b'\n').count();
+	let start = pre.iter().rposition(|&b| b == b'\n').map_or(0, |p| p + 1);
+	let s = std::str::from_utf8(&pre[start..]).ok()?;
+	Some((line as u32, 1 + s.chars().count() as u32))
+}
+
+/// token classes: (source text, kind) — every punctuation token, numbers in four radices, character
+/// literals (ASCII, escape, multi-byte), identifiers, strings (plain, escapes, multi-byte, both)
+fn token_classes() -> Vec<(Vec<u8>, &'static str)>
+{
+	let mut v: Vec<(Vec<u8>, &'static str)> = Vec::new();
+	for (t, k) in [(",", "sep"), (";", "term"), (":", "labelmark"), (".", "dirmark"), ("+", "plus"), ("-", "minus"), ("*", "mul"), ("/", "div"),
+		("%", "mod"), ("!", "not"), ("&", "band"), ("|", "bor"), ("^", "bxor"), ("<<", "shl"), (">>", "shr"), ("(", "lparen"), (")", "rparen"),
+		("[", "lbrack"), ("]", "rbrack"), ("{", "lbrace"), ("}", "rbrace"),
+		("12345", "num"), ("0", "num"), ("0b1011", "num"), ("0o777", "num"), ("0xDeadBeef", "num"),
+		("'a'", "num"), ("'\\n'", "num"), ("'\\''", "num"), ("'\u{e9}'", "num"), ("'\u{1F600}'", "num"), ("'\t'", "num"),
+		("x", "id"), ("MOVS", "id"), ("_a.b$c@9", "id"),
+		("\"\"", "str"), ("\"plain text\"", "str"), ("\"a\\tb\\\"c\\u{e9}\"", "str"), ("\"h\u{e9}llo \u{1F600}\"", "str"), ("\"\u{20AC}\\n\u{e9}\\u{1F600}\"", "str"), ("\"tab\there\"", "str")]
+	{
+		v.push((t.as_bytes().to_vec(), k));
+	}
+	v
+}
+
+/// separator atoms; `true` = starts with `/` (must not directly follow a `/` token)
+fn separator_atoms() -> Vec<(Vec<u8>, bool)>
+{
+	[(" ", false), ("   ", false), ("\t", false), ("\t \t", false), ("\n", false), ("\r\n", false), ("\n\n\n", false), (" \r\n\t", false),
+		("// line comment\n", true), ("//\n", true), ("// h\u{e9}llo \u{1F600} /* not a block\n", true), ("//\t\"'\\\r\n", true),
+		("/**/", true), ("/* block */", true), ("/* \u{e9}\u{20AC}\u{1F600} */", true), ("/* line1\nline2 \u{e9}\n\tline3 */", true),
+		("/* a /* nested \u{e9} */ b */", true), ("/* /* /* */ */\n */", true), ("/*/ */", true), ("/*\r\n*/", true), ("/* // */", true),
+		("/* \" ' */", true)]
+		.iter().map(|(s, b)| (s.as_bytes().to_vec(), *b)).collect()
+}
+
+/// the C12 oracle for the tokens: `placed[i]` = (byte offset, kind) of the i-th token of `text`.
+/// Element positions (parser) and diagnostic positions (assembler) are checked by other components;
+/// they hook in here with the same `text` / `placed` pair.
+fn c12_check(cx: &mut Cx, class: &str, text: &[u8], placed: &[(usize, &str)], reply: &str)
+{
+	let input = format!("pos {} {}", hex(text), placed.iter().map(|(o, _)| o.to_string()).collect::<Vec<_>>().join(","));
+	let lx = real_lex(text);
+	cx.report.case(Some(&lx.canon));
+	cx.report.hit(class);
+	cx.report.compare("model.lex.tokens", &input, reply, &lx.canon);
+	if let Some(m) = &lx.panic {cx.report.oracle_fail(input, format!("tokenizer panics: {m}")); return;}
+	if lx.err.is_some() || lx.toks.len() != placed.len()
+	{
+		cx.report.oracle_fail(input, format!("{} tokens were written, tokenizer yields: {}", placed.len(), lx.canon));
+		return;
+	}
+	for (i, (t, (o, k))) in lx.toks.iter().zip(placed.iter()).enumerate()
+	{
+		let want = position_of(text, *o).expect("generated text is valid UTF-8");
+		if (t.line, t.col) != want || (!k.is_empty() && t.kind != *k)
+		{
+			cx.report.oracle_fail(input, format!("token {i} ({k}) was written at byte offset {o} = line {} column {}, tokenizer reports {} at {}:{}", want.0, want.1, t.kind, t.line, t.col));
+			return;
+		}
+	}
+	// the end position is the position after the whole text
+	let want = position_of(text, text.len()).expect("generated text is valid UTF-8");
+	if lx.end != want
+	{
+		cx.report.oracle_fail(input, format!("end of text is line {} column {}, tokenizer reports {}:{}", want.0, want.1, lx.end.0, lx.end.1));
+	}
+}
+
+struct PosBatch
+{
+	class: &'static str,
+	cases: Vec<(Vec<u8>, Vec<(usize, &'static str)>)>,
+}
+
+fn pos_flush(cx: &mut Cx, b: &mut PosBatch)
+{
+	if b.cases.is_empty() {return;}
+	let lines: Vec<String> = b.cases.iter().map(|(t, _)| format!("lex tok {}", hex(t))).collect();
+	let replies = cx.model.ask_many(&lines);
+	let cases = std::mem::take(&mut b.cases);
+	for ((t, p), r) in cases.iter().zip(replies.iter()) {c12_check(cx, b.class, t, p, r);}
+}
+
+/// append separator `sep` after a token of kind `prev`; a separator starting with `/` directly after a `/`
+/// token would form `//`, so a space is put between
+fn push_sep(text: &mut Vec<u8>, prev: &str, sep: &(Vec<u8>, bool))
+{
+	if prev == "div" && sep.1 {text.push(b' ');}
+	text.extend_from_slice(&sep.0);
+}
+
+fn run_c12(cx: &mut Cx)
+{
+	cx.report.rule = "every ordered pair of token classes (41 x 41: all punctuation, four radices, character literals incl. multi-byte, identifiers, \
+strings with escapes and multi-byte characters) separated by every separator atom (spaces, tabs, LF, CRLF, line comments, nested / multi-line / multi-byte \
+block comments), once at the start of the text and once after a leading separator; plus random token sequences (2-12 tokens, 1-3 separator atoms between). \
+Oracle: (line, col) of each token = (1 + LF count, 1 + chars().count() since the last LF) of the byte offset at which it was written; the same for the \
+end position; the spec Pos.of is compared with that oracle too. non-trivial = every case".to_owned();
+	if let Some(input) = cx.replay.clone()
+	{
+		match input.split(' ').collect::<Vec<_>>().as_slice()
+		{
+			["pos", h, offs] if unhex(h).is_some() =>
+			{
+				let bytes = unhex(h).unwrap();
+				let placed: Vec<(usize, &str)> = offs.split(',').filter(|s| !s.is_empty()).filter_map(|s| s.parse().ok()).filter(|&o: &usize| o <= bytes.len()).map(|o| (o, "")).collect();
+				let reply = cx.model.ask(&format!("lex tok {}", hex(&bytes)));
+				c12_check(cx, "replay", &bytes, &placed, &reply);
+			},
+			_ => cx.report.oracle_fail(input.clone(), "unrecognised replay input"),
+		}
+		return;
+	}
+	let classes = token_classes();
+	let atoms = separator_atoms();
+	let mut rng = cx.rng.fork();
+
+	let mut b = PosBatch{class: "token pair x separator", cases: Vec::new()};
+	for (ta, ka) in classes.iter()
+	{
+		for (tb, kb) in classes.iter()
+		{
+			for (si, sep) in atoms.iter().enumerate()
+			{
+				for lead in 0..2
+				{
+					let mut text = Vec::new();
+					if lead == 1 {text.extend_from_slice(&atoms[(si * 7 + 3) % atoms.len()].0);}
+					let oa = text.len();
+					text.extend_from_slice(ta);
+					push_sep(&mut text, ka, sep);
+					let ob = text.len();
+					text.extend_from_slice(tb);
+					if rng.chance(1, 3) {let s = rng.pick(&atoms).clone(); push_sep(&mut text, kb, &s);}
+					b.cases.push((text, vec![(oa, *ka), (ob, *kb)]));
+				}
+			}
+			if b.cases.len() >= 16384 {pos_flush(cx, &mut b);}
+		}
+	}
+	pos_flush(cx, &mut b);
+	cx.report.notes.push(format!("all {} x {} ordered token-class pairs x {} separator atoms x 2 leading contexts enumerated", classes.len(), classes.len(), atoms.len()));
+
+	let mut b = PosBatch{class: "random token sequence", cases: Vec::new()};
+	let nseq = if cx.thorough() {300_000} else {40_000};
+	let mut spec_checks: Vec<(Vec<u8>, usize)> = Vec::new();
+	for i in 0..nseq
+	{
+		let n = 2 + rng.below(11);
+		let mut text = Vec::new();
+		let mut placed = Vec::new();
+		let mut prev = "";
+		if rng.chance(1, 2) {for _ in 0..1 + rng.below(3) {let s = rng.pick(&atoms).clone(); push_sep(&mut text, prev, &s); prev = "";}}
+		for _ in 0..n
+		{
+			let (t, k) = rng.pick(&classes).clone();
+			placed.push((text.len(), k));
+			text.extend_from_slice(&t);
+			prev = k;
+			for _ in 0..1 + rng.below(3) {let s = rng.pick(&atoms).clone(); push_sep(&mut text, prev, &s); prev = "";}
+		}
+		if i % 16 == 0 {let o = placed[rng.below(placed.len() as u64) as usize].0; spec_checks.push((text.clone(), o));}
+		b.cases.push((text, placed));
+		if b.cases.len() >= 8192 {pos_flush(cx, &mut b);}
+	}
+	pos_flush(cx, &mut b);
+
+	// the Lean specification Pos.of against the harness oracle
+	let lines: Vec<String> = spec_checks.iter().map(|(t, o)| format!("lex pos {}", hex(&t[..*o]))).collect();
+	let replies = cx.model.ask_many(&lines);
+	for ((t, o), r) in spec_checks.iter().zip(replies.iter())
+	{
+		let want = position_of(t, *o).unwrap();
+		cx.report.cases(1);
+		cx.report.compare("model.lex.Pos.of", &format!("pos {} {o}", hex(t)), r, &format!("{} {}", want.0, want.1));
+	}
+	cx.report.hit_n("Pos.of spec vs oracle", spec_checks.len() as u64);
+
+	for s in ["a /* \u{e9}\n\u{e9} */ 'x'", "\"h\u{e9}\" ;\r\n\t// c\n  MOVS"]
+	{
+		let lx = real_lex(s.as_bytes());
+		cx.report.sample(format!("{s:?} -> {}", lx.canon));
+	}
+}
 
 pub fn run(id: &str, cx: &mut Cx)
 {
-	cx.report.notes.push(format!("component for {id} not implemented"));
-	cx.report.oracle_fail("-", "harness component not implemented");
+	match id
+	{
+		"C10" => run_c10(cx),
+		"C11" => run_c11(cx),
+		"C12" => run_c12(cx),
+		_ => cx.report.oracle_fail("-", format!("lex component does not know property {id}")),
+	}
 }
